@@ -66,8 +66,9 @@ def master_socket_inodes(pid):
     return out
 
 
-def client_loop(e4, srv, stop, log, rng_seed, idx, mix=None):
+def client_loop(e4, srv, stop, log, rng_seed, idx, mix=None, addr=None):
     rng = rng_for(rng_seed, "c10-client", idx)
+    addr = srv.addr if addr is None else addr
     n = 0
     while not stop.is_set():
         n += 1
@@ -78,7 +79,7 @@ def client_loop(e4, srv, stop, log, rng_seed, idx, mix=None):
             path = "/sleep/%s" % d
         else:
             path = "/pid"
-        r = e4.request(srv.addr, path, timeout=15)
+        r = e4.request(addr, path, timeout=15)
         r["client"] = idx
         log.append(r)
         if r["outcome"] in ("refused", "error"):
@@ -192,7 +193,12 @@ def run_scenario(run, e4, sc):
             return v, "could not identify the master's listening socket inode", info
         log = []
         for i in range(sc["clients"]):
-            t = threading.Thread(target=client_loop, args=(e4, srv, stop, log, sc["seed"], i, sc.get("client_mix")), daemon=True)
+            # two listeners: the requests in flight at the reload are on the first one, on the last one, or on both
+            addr = None
+            if srv.bind_kind == "both":
+                tr = sc.get("traffic", "first")
+                addr = srv.addr2 if tr == "last" or (tr == "all" and i % 2) else srv.addr
+            t = threading.Thread(target=client_loop, args=(e4, srv, stop, log, sc["seed"], i, sc.get("client_mix"), addr), daemon=True)
             t.start()
             threads.append(t)
         klog = []
@@ -406,8 +412,12 @@ def scenarios(tier, seed):
             out.append({"class": wc, "configs": configs, "hup_delays": delays, "clients": 8, "bind": rng.choice(["tcp", "unix"]),
                         "kind": kind})
         # both kinds of listener at once (the reload compares the bind lists); every class with a unix socket at least once
-        out.append({"class": classes[(seed + rep + 1) % 4], "configs": [(2, 1), (2, 2)], "hup_delays": [0.6], "clients": 6, "bind": "both",
-                    "kind": "two-listeners"})
+        # - with the requests in flight on one of the listeners only (the other idle) and on both
+        rot = classes[(seed + rep + 1) % 4]
+        for wc, traffic in ((rot, ["all", "last", "first"][(seed + rep) % 3]), ("gevent" if rot != "gevent" else "eventlet", "first"),
+                            (["gthread", "eventlet", "gevent"][(seed + rep) % 3], "last")):
+            out.append({"class": wc, "configs": [(2, 1), (2, 2)], "hup_delays": [0.6], "clients": 6, "bind": "both",
+                        "kind": "two-listeners", "traffic": traffic})
         for wc in ("gthread", classes[(seed + rep) % 4]):
             out.append({"class": wc, "configs": [(2, 1), (rng.randint(1, 3), 2)], "hup_delays": [0.5], "clients": 6, "bind": "unix",
                         "kind": "unix-bind"})
@@ -484,6 +494,8 @@ def shard(sh):
     run.count("scenarios")
     run.count("class/" + sc["class"])
     run.count("kind/" + sc["kind"])
+    if sc.get("traffic"):
+        run.count("two_listeners_traffic/" + sc["traffic"])
     for mech, summary in v:
         run.violation(mech, summary + " | scenario=%s info=%s" % ({k: sc[k] for k in ("class", "configs", "hup_delays", "bind", "kind", "conf_ref")
                                                                    if k in sc}, info), sc)
@@ -500,7 +512,7 @@ def main(tier, seed):
     run = Run(PROP, tier, seed, "exploration", RULE)
     run.require("scenarios", "requests", "requests_overlapping_hup", "listener_inode_unchanged_checks", "all_workers_new_checks",
                 "new_generation_served_checks", "class/sync", "class/gthread", "class/gevent", "class/eventlet", "kind/double-fast",
-                "kind/ttin-then-hup", "long_request_across_reload_checks", "kind/two-listeners", "kind/unix-bind", "kind/double-slowboot",
+                "kind/ttin-then-hup", "long_request_across_reload_checks", "kind/two-listeners", "two_listeners_traffic/first", "two_listeners_traffic/last", "kind/unix-bind", "kind/double-slowboot",
                 "kind/keepalive-client", "keepalive_responses_on_reused_connection", "keepalive_connection_across_hup_checks",
                 "kind/large-pool", "reloads_of_a_large_pool_completed", "kind/hup-while-forking",
                 "hup_while_previous_reload_forks_checks", "kind/relative-conf-chdir", "relative_conf_with_chdir_reload_checks",
